@@ -122,6 +122,7 @@ def corr(ctx):
         nv = 40 if ctx.thorough else 12
         vecs = [[rng.gauss(0, 1.5) for _ in range(n)] for _ in range(nv)]
         vecs += [[(1 - 2 * c) * a for c in cws[rng.randrange(len(cws))]] for a in (0.5, 7.0, 50.0)]
+        vecs += [[1.0] * n, [(1 - 2 * c) * 1.0 for c in cws[-1]]]      # unit magnitude: entries all in {0, 1} / {-1, +1} must still be read as LLRs
         # single weak wrong-sign perturbations of a codeword
         for _ in range(4):
             c = cws[rng.randrange(len(cws))]
@@ -140,7 +141,8 @@ def corr(ctx):
         shape_ok = tuple(out.shape) == (len(vecs), k) and bool((out == out_e).all())
         for row, o in zip(L.tolist(), out.tolist()):
             mags = sorted(abs(v) for v in row)
-            if len(mags) > 1 and mags[1] - mags[0] < 1e-6:
+            odd = sum(1 for v in row if v < 0) % 2 == 1
+            if odd and len(mags) > 1 and mags[1] - mags[0] < 1e-6:      # only an odd-parity word has to choose its weakest position
                 ctx.skipped_by_margin += 1
                 continue
             scores = sorted(((sum((1 - 2 * b) * x for b, x in zip(c, row)), c) for c in cws), reverse=True)
